@@ -32,14 +32,14 @@ def build_am(modes, mix, asyncs_all):
     am = {
         "states": [
             {"id": "a", "initial": True, "enter": inl("enter", ["en_a"]), "exit": inl("exit", ["ex_a"])},
-            {"id": "b", "enter": inl("enter", ["en_b"]), "exit": inl("exit", ["ex_b"])},
+            {"id": "b", "enter": inl("enter", ["en_b", "shared_b"]), "exit": inl("exit", ["ex_b", "shared_b"])},
             {"id": "c", "enter": inl("enter", ["en_c"])},
         ],
         "transitions": [
             {"src": "a", "tgt": "b", "events": ["go"], "cond": ["ok0"], "validators": ["v_t0"],
              "before": inl("before", ["b_t0"]), "on": inl("on", ["o_t0"]), "after": inl("after", ["f_t0"])},
             {"src": "a", "tgt": "c", "events": ["go"], "on": inl("on", ["o_t1"])},
-            {"src": "b", "tgt": "b", "events": ["go", "hop"], "before": inl("before", ["b_t2"]), "after": inl("after", ["f_t2"])},
+            {"src": "b", "tgt": "b", "events": ["go", "hop"], "before": inl("before", ["b_t2", "shared_t2"]), "after": inl("after", ["f_t2", "shared_t2"]), "on": inl("on", ["shared_t2"])},
             {"src": "b", "tgt": "b", "events": ["tick"], "internal": True, "on": inl("on", ["o_t3"]), "before": inl("before", ["b_t3"])},
             {"src": "b", "tgt": "c", "events": ["jump"]},
             {"src": "c", "tgt": "a", "events": ["go", "hop"], "after": inl("after", ["f_t5"]), "on": inl("on", ["o_t5"])},
@@ -58,8 +58,8 @@ def build_am(modes, mix, asyncs_all):
         "exit": [f"on_exit_{s}" for s in STATES],
     }
     inline = {
-        "before": ["b_t0", "b_t2", "b_t3"], "on": ["o_t0", "o_t1", "o_t3", "o_t5"], "after": ["f_t0", "f_t2", "f_t5"],
-        "enter": ["en_a", "en_b", "en_c"], "exit": ["ex_a", "ex_b"],
+        "before": ["b_t0", "b_t2", "b_t3", "shared_t2"], "on": ["o_t0", "o_t1", "o_t3", "o_t5", "shared_t2"], "after": ["f_t0", "f_t2", "f_t5", "shared_t2"],
+        "enter": ["en_a", "en_b", "en_c", "shared_b"], "exit": ["ex_a", "ex_b", "shared_b"],
     }
     for g, mode in modes.items():
         if mode in ("generic", "all"):
@@ -67,7 +67,7 @@ def build_am(modes, mix, asyncs_all):
         if mode in ("specific", "all"):
             names += specific[g]
         if mode in ("inline", "all"):
-            names += inline[g]
+            names += [n for n in inline[g] if n not in names]
     methods = {}
     for p in mix:
         methods[p] = list(names)
@@ -105,7 +105,7 @@ BOUNDS = {
     "thorough": "as quick with each group populated {none, generic convention, specific convention, inline, all} and provider mixes "
     "{machine}, {machine, model, listener}, {listener only}, {machine, two listeners}.",
 }
-OUTSIDE = "decorator-declared callbacks and callables passed by reference (C15/C12 render those), more than one inline callback per group and transition, nested events (C03), faults (C04)"
+OUTSIDE = "(one inline name is deliberately reused across groups of the same state / transition) decorator-declared callbacks and callables passed by reference (C15/C12 render those), more than one inline callback per group and transition, nested events (C03), faults (C04)"
 OBLIGATIONS = ["external", "self-external", "internal", "multi-event-second-id", "rejected-candidate", "initial-activation", "tna"]
 ASSUMPTIONS = [
     "classes are built natively per path from concrete choices; instance construction in the initial-activation scenario, and every send(), run under the tracer",
